@@ -9,6 +9,45 @@ from ..terms import T, pc_literals, show, subterms
 from . import common
 
 
+def check_pair_table_order(db, res):
+  """R-SEQ.4 (host side, order only - the boolean filter formula itself is not decided): the array that becomes column 0 of
+  m.nxn_pairid gets (a) the filter code -2 and (b) the ids of explicit <contact><pair>s. MuJoCo considers explicit pairs
+  regardless of contype/conaffinity, parent-child, same-body and exclude filters, so every (a)-store must come before the
+  (b)-stores in program order: a filter store after them would delete explicit pairs."""
+  import ast
+
+  fi = db.sm.func("io.put_model")
+  # the table variable: first column of the hstack/stack assigned to m.nxn_pairid
+  table = None
+  for n in ast.walk(fi.node):
+    if isinstance(n, ast.Assign) and any(isinstance(t, ast.Attribute) and t.attr == "nxn_pairid" for t in n.targets):
+      names = [x.id for x in ast.walk(n.value) if isinstance(x, ast.Name) and x.id not in ("np",)]
+      if names:
+        table = names[0]
+  if table is None:
+    res.error("anchor vanished: assignment of m.nxn_pairid in io.put_model")
+    return
+  filt, pairs = [], []
+  for n in ast.walk(fi.node):
+    if isinstance(n, ast.Assign) and len(n.targets) == 1 and isinstance(n.targets[0], ast.Subscript) and isinstance(n.targets[0].value, ast.Name) and n.targets[0].value.id == table:
+      v = n.value
+      if isinstance(v, ast.UnaryOp) and isinstance(v.op, ast.USub) and isinstance(v.operand, ast.Constant) and v.operand.value == 2:
+        filt.append(n)
+      elif isinstance(v, ast.Name):
+        pairs.append(n)  # the loop variable of `for i in range(mjm.npair)`
+  res.ob(bool(pairs), "pair-table|explicit-pairs-written", Finding("R-SEQ.4", "io.put_model|nxn_pairid|explicit-pairs-not-written", f"no store of explicit pair ids into `{table}` found", fi.loc()))
+  if not pairs:
+    return
+  first_pair = min(p.lineno for p in pairs)
+  late = [f for f in filt if f.lineno > first_pair]
+  res.ob(
+    not late,
+    "pair-table|filters-before-explicit-pairs",
+    Finding("R-SEQ.4", "io.put_model|nxn_pairid|filter-after-explicit-pairs", f"`{table}[...] = -2` is stored after the explicit contact pairs were written into the table (line {late[0].lineno if late else 0}): the filter deletes explicit pairs, which MuJoCo always considers", f"{fi.file}:{late[0].lineno}" if late else fi.file),
+    sample={"table": table, "filter_stores": len(filt), "explicit_pair_stores": len(pairs)},
+  )
+
+
 def run(db, res, tier):
   sm = db.sm
   # (a1) NXN iterates the pre-filtered pair table and its pair ids
@@ -60,7 +99,8 @@ def run(db, res, tier):
       if fam == "pair" and len(a.idx) > 1:
         res.ob(a.idx[1] is pid, f"{fn}|{a.root}|index", Finding("R-GATE.14", f"{fn}|{a.root}|pair-index", f"`{a.root}` is indexed by `{show(a.idx[1])}`, not by the pair id", a.loc))
     res.floor(f"parameter reads in {fn.split('.')[-1]}", n, 4)
-  res.rule_text = "R-GATE: the all-pairs broadphase iterates the pre-filtered pair tables; the sweep-and-prune broadphase tests the nxn_pairid exclusion code before every store into the pair list; in contact_margin_gap / contact_material_params explicit pairs (pairid > -1) read only pair_* parameters indexed by the pair id and generated pairs read only geom_* parameters"
-  res.explanation = "Narrow structural claim. Not decided: the boolean formula in put_model that fills nxn_pairid (host numpy code; comparing it with a frozen formula would be a brittle text match)."
+  check_pair_table_order(db, res)
+  res.rule_text = "R-SEQ.4: in put_model the explicit contact pairs are written into the pair-id table after every store of the filter code (-2), so an explicit pair overrides all geom-level filters (MuJoCo always considers explicit pairs) and nothing re-filters it afterwards; R-GATE: the all-pairs broadphase iterates the pre-filtered pair tables; the sweep-and-prune broadphase tests the nxn_pairid exclusion code before every store into the pair list; in contact_margin_gap / contact_material_params explicit pairs (pairid > -1) read only pair_* parameters indexed by the pair id and generated pairs read only geom_* parameters"
+  res.explanation = "Narrow structural claim. Decided on the host side: only the ORDER of the stores into the pair-id table (explicit pairs last). Not decided: the boolean formula in put_model that fills nxn_pairid (host numpy code; comparing it with a frozen formula would be a brittle text match)."
   res.extra["analysed"] = {"kernels": ["collision_driver._nxn_broadphase.kernel", "collision_driver._sap_broadphase.kernel"], "funcs": ["collision_core.contact_margin_gap", "collision_core.contact_material_params"]}
   res.assumptions += ["put_model fills nxn_pairid with MuJoCo's filter rules (contype/conaffinity, weld bodies, parent-child, excludes): not checked"]
